@@ -189,13 +189,24 @@ Eval(ev) == IF T.mode = "strict" \/ ev.op = "probe" THEN EvalStrict(ev)
                       IN [h EXCEPT !.fail = @ \cup ResyncFails(ev, allouts)]
                  ELSE EvalHostile(ev)
 
+(* Force Listen Only Mode is a legitimate request: a device that received it owes nobody an answer any more (how the front-ends  *)
+(* differ in honouring it is described in Device.tla).  Hostile input can contain it by accident - a bit flip turns the sub-       *)
+(* function 0000 of a diagnostic request into 0004 and MBAP has no checksum - and then the probe proves nothing.                  *)
+ListenOnlySeen ==
+  \E c \in 1..Len(T.streams) :
+     \/ \E k \in 1..Len(T.sent[c]) : IsListenOnlyReq(T.sent[c][k].pdu)
+     \/ T.kind = "tcp" /\ \E f \in TcpSlices(T.streams[c]) : IsListenOnlyReq(f.pdu)
+     \/ T.kind = "ascii" /\ \E f \in AsciiSlices(T.streams[c]) : IsListenOnlyReq(f.pdu)
+
 Verdict(status, step, clauses, detail) ==
   PrintT("VERDICT " \o ToJson([id |-> T.id, status |-> status, step |-> step, clauses |-> clauses, detail |-> detail]))
 Step ==
   /\ out = "run" /\ i <= Len(T.ev)
   /\ LET ev == T.ev[i]
          e == Eval(ev)
-         f0 == IF ev.op = "probe" /\ e.fail # {} THEN e.fail \cup {"Probe"} ELSE e.fail
+         f0 == IF ev.op = "probe" /\ e.fail # {}
+               THEN (IF T.mode # "strict" /\ ListenOnlySeen THEN {} ELSE e.fail \cup {"Probe"})
+               ELSE e.fail
          f == IF i = 1 /\ ~GhostOK THEN f0 \cup {"GhostFrames"} ELSE f0
      IN /\ IF f # {} THEN Verdict("FAIL", i, f, [expected |-> e.exp, op |-> ev.op]) /\ out' = "done"
            ELSE IF i = Len(T.ev) THEN Verdict("OK", i, {}, [n |-> i]) /\ out' = "done" ELSE out' = "run"
